@@ -153,6 +153,7 @@ type caseIn struct {
 	// bomb: a single compressed packet whose body inflates to Inflated bytes of Fill
 	Ty       int `json:"ty"`
 	Inflated int `json:"inflated"`
+	Pre      []preIn `json:"pre,omitempty"` // dispatch: packets handed to the dispatcher on the SAME fresh connection before the packet under test
 	BadJSON  bool `json:"badjson,omitempty"` // bomb on a command-carrying type: the inflated body is NOT JSON (bytes 0x01): the frame is refused; the refusal must stay within the allocation bound too
 	// dispatch: one packet handed directly to HandlePacket
 	Payload string                `json:"payload"`
@@ -188,6 +189,23 @@ type caseOut struct {
 var fx *server.VerifFixture
 var connSeq int
 
+type preIn struct {
+	Ty      int                   `json:"ty"`
+	Payload string                `json:"payload"`
+	Cmd     *packet.CommandPacket `json:"cmd,omitempty"`
+}
+
+var wedged bool
+
+func dispatchWait() time.Duration {
+	if wedged {
+		return 500 * time.Millisecond
+	}
+	return 15 * time.Second
+}
+
+var dispatchPre []preIn // set by the "dispatch" case around freshDispatch
+
 func freshDispatch(tp *packet.TransferPacket, out *caseOut) {
 	connSeq++
 	ip := fmt.Sprintf("198.51.%d.%d", (connSeq/250)%250, connSeq%250+1)
@@ -207,6 +225,10 @@ func freshDispatch(tp *packet.TransferPacket, out *caseOut) {
 			done <- ""
 			return
 		}
+		for _, q := range dispatchPre {
+			_ = fx.Session.HandlePacket(&types.StreamPacket{ConnectionID: conn.ID, Timestamp: time.Now(),
+				Packet: &packet.TransferPacket{PacketType: packet.Type(q.Ty), Payload: unhx(q.Payload), CommandPacket: q.Cmd}})
+		}
 		herr = fx.Session.HandlePacket(&types.StreamPacket{ConnectionID: conn.ID, Packet: tp, Timestamp: time.Now()})
 		_ = fx.Session.CloseConnection(conn.ID)
 		done <- ""
@@ -216,9 +238,10 @@ func freshDispatch(tp *packet.TransferPacket, out *caseOut) {
 		if p != "" && out.Panicked == "" {
 			out.Panicked = fmt.Sprintf("HandlePacket(type %#x): %s", byte(tp.PacketType), firstLines(p, 12))
 		}
-	case <-time.After(15 * time.Second):
+	case <-time.After(dispatchWait()):
 		out.TimedOut = true
-		out.PropMsg = fmt.Sprintf("HandlePacket(type %#x) did not return within 15s", byte(tp.PacketType))
+		out.PropMsg = fmt.Sprintf("HandlePacket(type %#x) did not return within %v", byte(tp.PacketType), dispatchWait())
+		wedged = true // the session manager may be blocked for good: do not wait 15 s for every later case
 	}
 	out.Dispatched++
 	out.DispErr = append(out.DispErr, herr != nil)
@@ -583,7 +606,9 @@ func runCase(raw json.RawMessage) interface{} {
 		out.WireLen = len(wire)
 	case "dispatch":
 		tp := &packet.TransferPacket{PacketType: packet.Type(c.Ty), Payload: unhx(c.Payload), CommandPacket: c.Cmd}
+		dispatchPre = c.Pre
 		freshDispatch(tp, out)
+		dispatchPre = nil
 	default:
 		panic("bad mode")
 	}
